@@ -131,6 +131,12 @@ impl Property for C07 {
         if msgs.post_ops.iter().any(|o| !o.is_empty()) {
             st.label("message modified through the send guard before send");
         }
+        if msgs.raw.iter().any(|r| r.is_some()) {
+            st.label("message written as raw bytes (as_mut_bytes + assume_init)");
+        }
+        if msgs.raw.iter().zip(&msgs.images).any(|(r, i)| r.as_ref().map_or(false, |r| r.len() > i.bytes.len())) {
+            st.label("raw image in non-canonical packing / with slack");
+        }
         if msgs.values.len() >= 2 && inside && (msgs.has_padding || in_padding) {
             st.label("non-trivial");
             st.nontrivial((&name, &msgs.values, max_msg_len, &wchunks, &rchunks), || {
